@@ -1320,7 +1320,14 @@ pub fn gen_vfont(rng: &mut Rng, quick: bool) -> VFont {
             _ => true,
         };
         if exists {
-            let v = if signed { rng.range(-1500, 1500) as i32 } else { rng.range(0, 3000) as i32 };
+            let v = if signed {
+                rng.range(-1500, 1500) as i32
+            } else if rng.chance(1, 6) {
+                // usWinAscent/usWinDescent are unsigned: values beyond the int16 range are legal
+                rng.range(30000, 65000) as i32
+            } else {
+                rng.range(0, 3000) as i32
+            };
             vf.base.insert(tag.to_string(), v);
         }
     }
